@@ -20,7 +20,7 @@ import (
 
 // C06 — Compile is total: no panic, crash or hang; exactly one of (expr, error).
 
-const ruleC06 = "rapid: valid expression text from all fragments (incl. unconstrained ones) or token soup, then 0-3 mutations, byte-level (delete / duplicate a range, flip a byte, insert a token from a dictionary) or token-level (delete / duplicate / swap lexical words of XPath tokens, quotes, brackets, NUL, invalid UTF-8, multi-byte names) x namespace configuration (Compile; CompileWithNS with nil, empty, binding and non-binding maps). mixed: alternations of two constructs (predicate/function, predicate/arithmetic, parenthesis/union, sequence/predicate/function ...) at depths 2..198, whose compile cost must stay polynomial; two-phase: N completed sibling constructs followed by a construct nested N+250 deep (N up to 10^5 quick / 1.5*10^6 thorough) for 7 prefix x 5 nesting constructs; deep: every recursive construct of the grammar ('(', 'a[', 'f(', 'a/(', 'a/(b,', '-', 'a/', 'a//', '[1]', '1+', 'a|', 'or', '=', alternations of two) nested to depth 10^2..10^5 (10^6 for the constructs of at most four bytes per level) under an 8 MB maximum stack (quick) or ..3*10^6 (3*10^7) under the default 1 GB stack (thorough), closed and unclosed, each journalled before it runs so that a dying process is attributed. pumped segments: prefix + segment^n + suffix (n = 40; thorough 24, 40, 64, 150) for every segment of <= 3 chunks from 37 lexical chunks and small balanced constructs ('/', '(b,c)', '[b|c]', ' or ', 'not(' ...) in 5 frames, decided by an allocation budget (a Compile that passes 6*10^7 allocations is abandoned and reported) so that a cost that multiplies per repeated sibling is seen without waiting for the clock; short byte strings: every string of <= 3 bytes over 26 hostile bytes (UTF-8 lead/continuation bytes, BOM bytes, NUL, 0xFF, quotes, brackets) x 2 namespace configurations. thorough also: native go fuzzing of the same oracle. Oracle: Compile/CompileWithNS return exactly one of (non-nil expr, non-nil error); no panic escapes; the process survives; MustCompile returns a usable non-nil expression; a returned expression answers String() without panicking and can be used once (Select and Evaluate on a four-element document under a small operation budget) without a Go runtime error; every call returns within a generous wall-clock margin (re-tried once in isolation). Non-trivial: the input was mutated, or is soup, or is a depth case; distinct by input bytes + namespace configuration."
+const ruleC06 = "rapid: valid expression text from all fragments (incl. unconstrained ones) or token soup, then 0-3 mutations, byte-level (delete / duplicate a range, flip a byte, insert a token from a dictionary) or token-level (delete / duplicate / swap lexical words of XPath tokens, quotes, brackets, NUL, invalid UTF-8, multi-byte names) x namespace configuration (Compile; CompileWithNS with nil, empty, binding and non-binding maps). mixed: alternations of two constructs (predicate/function, predicate/arithmetic, parenthesis/union, sequence/predicate/function ...) at depths 2..198, whose compile cost must stay polynomial; two-phase: N completed sibling constructs followed by a construct nested N+250 deep (N up to 10^5 quick / 1.5*10^6 thorough) for 7 prefix x 5 nesting constructs; deep: every recursive construct of the grammar ('(', 'a[', 'f(', 'a/(', 'a/(b,', '-', 'a/', 'a//', '[1]', '1+', 'a|', 'or', '=', alternations of two) nested to depth 10^2..10^5 (10^6 for the constructs of at most four bytes per level), and the ten chain constructs at 10^3 and 10^5 terms inside each of 8 frames that make the builder reject the expression around them (unknown function, too many arguments, in a predicate, as a sibling), under an 8 MB maximum stack (quick) or ..3*10^6 (3*10^7) under the default 1 GB stack (thorough), closed and unclosed, each journalled before it runs so that a dying process is attributed. pumped segments: prefix + segment^n + suffix (n = 40; thorough 24, 40, 64, 150) for every segment of <= 3 chunks from 37 lexical chunks and small balanced constructs ('/', '(b,c)', '[b|c]', ' or ', 'not(' ...) in 5 frames, decided by an allocation budget (a Compile that passes 6*10^7 allocations is abandoned and reported) so that a cost that multiplies per repeated sibling is seen without waiting for the clock; short byte strings: every string of <= 3 bytes over 26 hostile bytes (UTF-8 lead/continuation bytes, BOM bytes, NUL, 0xFF, quotes, brackets) x 2 namespace configurations. thorough also: native go fuzzing of the same oracle. Oracle: Compile/CompileWithNS return exactly one of (non-nil expr, non-nil error); no panic escapes; the process survives; MustCompile returns a usable non-nil expression; a returned expression answers String() without panicking and can be used once (Select and Evaluate on a four-element document under a small operation budget) without a Go runtime error; every call returns within a generous wall-clock margin (re-tried once in isolation). Non-trivial: the input was mutated, or is soup, or is a depth case; distinct by input bytes + namespace configuration."
 
 var (
 	uC06Rapid = harness.NewUnit("C06", "rapid-mutated-inputs", ruleC06)
@@ -83,9 +83,22 @@ func init() {
 		if mb, ok := l.Params["max_stack_mb"].(float64); ok && mb > 0 {
 			debug.SetMaxStack(int(mb) << 20)
 		}
+		frame, _ := l.Params["frame"].(string)
 		for _, c := range deepConstructs {
 			if c.name == name {
-				_, f := checkCompileTotal(c.build(depth, closed), false, nil)
+				in := c.build(depth, closed)
+				if frame != "" {
+					found := false
+					for _, fr := range errorFrames {
+						if fr.name == frame {
+							in, found = fr.open+in+fr.close, true
+						}
+					}
+					if !found {
+						return harness.Failf("known frame", frame, "unknown error frame")
+					}
+				}
+				_, f := checkCompileTotal(in, false, nil)
 				return f
 			}
 		}
@@ -436,6 +449,23 @@ var deepConstructs = []deepConstruct{
 	{"concat-args", func(n int, _ bool) string { return "concat(" + rep("a,", n) + "a)" }},
 }
 
+// errorFrames put a long chain where the builder rejects the expression around it: whatever
+// a rejection does with the operand it was handed (describe it in the message, release it,
+// walk it for a hint) meets a tree as deep as the chain is long, before the builder's own
+// depth accounting has seen it.
+var errorFrames = []struct{ name, open, close string }{
+	{"unknown-function", "nosuch(", ")"},
+	{"unknown-function-second-argument", "nosuch(1,", ")"},
+	{"unknown-prefixed-function", "p:nosuch(", ")"},
+	{"too-many-arguments", "true(", ")"},
+	{"too-many-arguments-second", "string(1,", ")"},
+	{"unknown-function-in-predicate", "a[nosuch(", ")]"},
+	{"unknown-function-sibling", "nosuch() or ", ""},
+	{"chain-then-unknown-function", "", " or nosuch()"},
+}
+
+var chainConstructs = map[string]bool{"unary-minus": true, "slash": true, "double-slash": true, "predicates-in-a-row": true, "plus": true, "union": true, "or": true, "equals": true, "abbrev-parent": true, "concat-args": true}
+
 // mixedConstructs nest two different constructs alternately; their cost must
 // stay polynomial, so they are tried at moderate depths below the parser's limit.
 var mixedConstructs = []deepConstruct{
@@ -599,6 +629,35 @@ func TestC06Deep(t *testing.T) {
 				}
 				uC06Deep.Case(harness.Hash64(c.name, fmt.Sprint(depth, closed)), true, []string{"construct:" + c.name, fmt.Sprintf("depth:%d", depth), res}, func() interface{} {
 					return map[string]interface{}{"construct": c.name, "depth": depth, "closed": closed, "input": clip(in), "result": res}
+				})
+			}
+		}
+	}
+	for _, depth := range []int{1000, depths[3]} {
+		for _, c := range deepConstructs {
+			if !chainConstructs[c.name] {
+				continue
+			}
+			for _, fr := range errorFrames {
+				idx++
+				if idx%shards != shard {
+					continue
+				}
+				in := fr.open + c.build(depth, true) + fr.close
+				l := &harness.Live{Property: "C06", Check: "C06/deep", Expr: clip(in),
+					Params: map[string]interface{}{"construct": c.name, "frame": fr.name, "depth": depth, "closed": true, "max_stack_mb": float64(stackMB)}}
+				journal.Record(l.Save())
+				acc, f := checkCompileTotal(in, false, nil)
+				if f != nil {
+					harness.Report(t, uC06Deep, l, f)
+				}
+				total++
+				res := "rejected"
+				if acc {
+					res = "accepted"
+				}
+				uC06Deep.Case(harness.Hash64(c.name, fr.name, fmt.Sprint(depth)), true, []string{"construct:" + c.name, "frame:" + fr.name, fmt.Sprintf("depth:%d", depth), res}, func() interface{} {
+					return map[string]interface{}{"construct": c.name, "frame": fr.name, "depth": depth, "input": clip(in), "result": res}
 				})
 			}
 		}
